@@ -50,7 +50,8 @@ DirLists ==
            << Dir(2, 4, 1, 2, <<1, 0>>, 90) >>,
            << Dir(3, 1, 1, 4, <<2, 1>>, 45), Dir(3, 2, 1, 2, <<1, 1>>, 0) >>,
            << Dir(3, 2, 1, 2, <<1, -1>>, 0) >>,
-           << Dir(3, 1, 1, 2, <<0, 1>>, 45) >> >>
+           << Dir(3, 1, 1, 2, <<0, 1>>, 45) >>,
+           << Cyl(Dir(3, 1, 1, 2, <<2, 1>>, 90), 3, 4), Cyl(Dir(3, 1, 1, 2, <<0, 3>>, 90), 1, 2) >> >>
     [] DirSet = "t2" ->    \* 2-D, thorough
         << << Dir(3, 1, 1, 2, <<1, 0>>, 90) >>,
            << Dir(3, 1, 1, 2, <<1, 0>>, 0), Dir(3, 1, 1, 2, <<0, 1>>, 0) >>,
@@ -67,7 +68,9 @@ DirLists ==
            << Cyl(Bench(Dir(3, 2, 1, 2, <<0, 1>>, 60), 3, 2), 3, 2) >>,
            << Dir(3, 5, 1, 2, <<2, 1>>, 0), Dir(2, 5, 1, 2, <<1, -2>>, 0) >>,
            << Dir(2, 9, 1, 2, <<1, 0>>, 90) >>,
-           << Dir(3, 2, 1, 8, <<1, 0>>, 90) >> >>
+           << Dir(3, 2, 1, 8, <<1, 0>>, 90) >>,
+           << Cyl(Dir(3, 1, 1, 2, <<2, 1>>, 90), 3, 4), Cyl(Dir(3, 1, 1, 2, <<0, 3>>, 90), 1, 2),
+              Cyl(Dir(2, 2, 1, 2, <<-2, 2>>, 90), 5, 4) >> >>
     [] DirSet = "l1" ->    \* 1-D line
         << << Dir(3, 1, 1, 2, <<1>>, 90) >>,
            << Dir(3, 4, 1, 2, <<1>>, 0) >>,
@@ -79,12 +82,16 @@ DirLists ==
            << Dir(2, 1, 1, 2, <<0, 0, 1>>, 0), Dir(2, 2, 1, 2, <<1, 1, 0>>, 0), Dir(2, 3, 1, 2, <<1, 1, 1>>, 0) >>,
            << Bench(Dir(3, 1, 1, 2, <<1, 0, 0>>, 90), 1, 2) >>,
            << Cyl(Dir(3, 1, 1, 4, <<0, 0, 1>>, 90), 1, 2), Dir(2, 1, 1, 2, <<1, 1, 0>>, 45) >>,
-           << Dir(2, 2, 1, 2, <<0, 1, -1>>, 0) >> >>
+           << Dir(2, 2, 1, 2, <<0, 1, -1>>, 0) >>,
+           << Cyl(Dir(2, 1, 1, 2, <<1, 0, 2>>, 90), 3, 4), Cyl(Dir(2, 1, 1, 2, <<0, 2, 0>>, 90), 1, 2) >>,
+           << Cyl(Dir(2, 2, 1, 2, <<3, 0, 4>>, 90), 3, 4) >> >>
 
 NL == Len(DirLists)
 
 Vals == Vals0 \cup (IF HasNA THEN {NA} ELSE {})
-ZSet == IF NVar = 1 THEN {<<v>> : v \in Vals} ELSE {<<v1, v2>> : v1 \in Vals, v2 \in Vals}
+ZSet == CASE NVar = 1 -> {<<v>> : v \in Vals}
+          [] NVar = 2 -> {<<v1, v2>> : v1 \in Vals, v2 \in Vals}
+          [] NVar = 3 -> {<<v1, v2, v3>> : v1 \in Vals, v2 \in Vals, v3 \in Vals}
 SSet == IF UseSel THEN {0, 1} ELSE {1}
 
 Init == data = <<>>
@@ -96,7 +103,7 @@ Next == /\ Len(data) < MaxN
 Spec == Init /\ [][Next]_vars
 
 (* deterministic sub-sampling *)
-Code(smp) == smp.pi + 9 * (smp.s + 2 * (smp.w + 4 * Sum(LAMBDA i : (smp.z[i] + 100) * (IF i = 1 THEN 1 ELSE 7), DOMAIN smp.z)))
+Code(smp) == smp.pi + 9 * (smp.s + 2 * (smp.w + 4 * Sum(LAMBDA i : (smp.z[i] + 100) * (IF i = 1 THEN 1 ELSE IF i = 2 THEN 7 ELSE 53), DOMAIN smp.z)))
 Hash(d) == LET H[k \in 0..Len(d)] == IF k = 0 THEN Seed % 9973 ELSE (H[k - 1] * 31 + Code(d[k]) + 17 * k) % 9973 IN H[Len(d)]
 Retained(d) == Len(d) >= MinN /\ Hash(d) % SampleMod = SampleRem % SampleMod
 ListsOf(d) == {1 + ((Hash(d) \div 7 + t * (1 + NL \div DirsPerCase)) % NL) : t \in 0..(DirsPerCase - 1)}
